@@ -372,6 +372,25 @@ func c23Stream(rng *rand.Rand, n int, tier string, out string) (*Summary, error)
 			both := []*gpb.Notification{{Update: []*gpb.Update{c22Upd("/top/scalars/str", c22Str("a")), c22Upd("/top/nest/b", &gpb.TypedValue{Value: &gpb.TypedValue_IntVal{IntVal: 3}})}}}
 			run.one("single-edit/add/under-replaced", rr, both, "/top/nest/b", pkgs[0], false, nil)
 		}
+		// key values that a path cleaner would rewrite ("//", "/./", "/../"): the request carries them
+		// in JSON, the notifications in path elements
+		for _, kv := range []string{"http://a.example/x", "files/./conf/../a.cfg", "a//b"} {
+			jb, _ := json.Marshal(map[string]interface{}{"l-str": []interface{}{map[string]interface{}{"k": kv, "c": map[string]interface{}{"z": "1"}}}})
+			rq := &gpb.SetRequest{Replace: []*gpb.Update{c22Upd("/top", c22JS(string(jb)))}}
+			kp := &gpb.Path{Elem: []*gpb.PathElem{{Name: "top"}, {Name: "l-str", Key: map[string]string{"k": kv}}}}
+			leafAt := func(names ...string) *gpb.Path {
+				q := proto.Clone(kp).(*gpb.Path)
+				for _, n := range names {
+					q.Elem = append(q.Elem, &gpb.PathElem{Name: n})
+				}
+				return q
+			}
+			nn := []*gpb.Notification{{Update: []*gpb.Update{{Path: leafAt("k"), Val: c22Str(kv)}, {Path: leafAt("c", "z"), Val: c22Str("1")}}}}
+			run.one("exact", rq, nn, "", pkgs[0], false, nil)
+			nn2 := []*gpb.Notification{{Prefix: &gpb.Path{Elem: kp.Elem[:1]}, Update: []*gpb.Update{{Path: &gpb.Path{Elem: leafAt("k").Elem[1:]}, Val: c22Str(kv)}}}}
+			ps := c22PS(leafAt("c", "z"))
+			run.one("single-edit/remove", rq, nn2, ps, pkgs[0], false, nil)
+		}
 		// an empty leaf-list: [] in the request's JSON, a leaflist_val without elements in the
 		// notifications (ygot itself no longer emits one, other gNMI targets do)
 		emptyLL := &gpb.TypedValue{Value: &gpb.TypedValue_LeaflistVal{LeaflistVal: &gpb.ScalarArray{}}}
